@@ -199,8 +199,12 @@ def program_st(draw, max_features=3, faults=True, cfg=None, peek=True, **kw):
     if peek and draw(st.integers(0, 3)) == 0:
         prog["peek"] = True         # hooks read element statuses (harness.Plan.peek)
     if faults:
-        f = draw(st.integers(0, 5))
-        if f == 0:
+        f = draw(st.integers(0, 6))
+        if f == 6:
+            # run-time exclusion: a before_feature / before_rule / before_scenario hook calls <element>.skip()
+            # (documented); at any other hook position this fault kind does nothing
+            prog["hook_faults"] = [[draw(st.integers(0, 10000)), "skip"]]
+        elif f == 0:
             prog["hook_faults"] = [[draw(st.integers(0, 10000)),
                                     draw(st.sampled_from(["Exception", "AssertionError"]))]]
         elif f == 1:
